@@ -164,6 +164,12 @@ def emitFrame (f : Nat) : List Ev → Option Nat → List Ev × Option Nat
     | none => let (r, q) := emitFrame f es none; ({ e with fr := some f } :: r, q)
     | some isz => let (r, q) := emitFrame f es none; (⟨e.ty, isz + e.siz, some f, none, e.ct⟩ :: r, q)
 
+/-- the optional event `e` with its frame number set to `g` -/
+def evAt (e : Option Ev) (g : Nat) : List Ev :=
+  match e with
+  | some e => [{ e with fr := some g }]
+  | none => []
+
 /-- the `while f < fSlice.stop` loop of `genEvents` (fuel = number of iterations still possible) -/
 def frameLoop (p : Plan) (fevts : List Ev) (post inter : Option Ev) (stop step : Nat) :
     Nat → Nat → Option Nat → List Ev
@@ -173,9 +179,9 @@ def frameLoop (p : Plan) (fevts : List Ev) (post inter : Option Ev) (stop step :
       let (evs, pend') := emitFrame f fevts pend
       let f' := f + step
       if f' ≥ stop then
-        evs ++ (match post with | some e => [{ e with fr := some (f' - step) }] | none => [])
+        evs ++ evAt post (f' - step)
       else
-        evs ++ (match inter with | some e => [{ e with fr := some f' }] | none => [])
+        evs ++ evAt inter f'
           ++ (if p.indr > 0 then [⟨.extrap, step, some f', none, none⟩] else [])
           ++ frameLoop p fevts post inter stop step fuel f' pend'
     else []
